@@ -40,7 +40,23 @@ func clip(s string) string {
 func run(c *mon.Case) {
 	r := c.Rng
 	base := bases[r.Intn(len(bases))]
-	const win = 48
+	win := 48
+	big := r.Intn(6) == 0
+	if big {
+		// a wide window: reads of up to 255 bytes composed of many stored values, pieces
+		// beginning 32 and more bytes into the read
+		win = 280
+		if base > 1<<63 {
+			base = 1<<64 - 400
+		}
+		c.Count("wide_window_histories", 1)
+	}
+	lw := func(n int) int { // width of a read
+		if big && r.Intn(2) == 0 {
+			return 33 + r.Intn(223)
+		}
+		return 1 + r.Intn(n)
+	}
 	var hist []string
 	g := gen.NewExprGen(r)
 	g.Gadgets, g.WidthGadgets = 5, 5
@@ -163,7 +179,7 @@ func run(c *mon.Case) {
 			}
 		case x < 85:
 			addr := base + uint64(r.Intn(win))
-			if !k.Load(addr, fit(addr, 1+r.Intn(24))) {
+			if !k.Load(addr, fit(addr, lw(24))) {
 				return
 			}
 		default:
@@ -175,7 +191,7 @@ func run(c *mon.Case) {
 		}
 		for i := 0; i < probes; i++ {
 			addr := base + uint64(r.Intn(win))
-			if !k.Load(addr, fit(addr, 1+r.Intn(14))) {
+			if !k.Load(addr, fit(addr, lw(14))) {
 				return
 			}
 		}
@@ -244,7 +260,7 @@ func main() {
 			}
 			return 2000
 		},
-		RequiredCounts: []string{"loads_nontrivial", "loads_missing", "stores", "histories_bytes", "histories_sparse-const", "histories_sparse-symbolic", "histories_overlay", "prepopulated_upper_layers"},
+		RequiredCounts: []string{"wide_window_histories", "loads_nontrivial", "loads_missing", "stores", "histories_bytes", "histories_sparse-const", "histories_sparse-symbolic", "histories_overlay", "prepopulated_upper_layers"},
 		Run:            run,
 	})
 }
